@@ -61,6 +61,7 @@ import DDProps.C17Load2
 import DDProps.C17Reorder
 import DDProps.C18
 import DDProps.C19
+import DDProps.C19Quant
 import DDProps.Histories
 import DDProps.Histories2
 import DDProps.Histories3
